@@ -873,7 +873,22 @@ namespace pl
                 // itself (distanceGoal, what most planners report) or to a state inside the goal region (AIT*/EIT* report the
                 // distance to the closest goal-region state they hold), i.e. a value in [distanceGoal - threshold, distanceGoal]
                 const double tol = 1e-9 * (1 + w.ext);
-                if (!(sol.difference_ <= want + tol && sol.difference_ >= want - gr->getThreshold() - tol))
+                // GoalStates may list invalid / out-of-bounds goal states that no path can end in; a planner that measures
+                // the difference to the closest USABLE goal state reports more than distanceGoal(), which takes all of them
+                double upper = want;
+                if (w.goalType == 1)
+                {
+                    ob::ScopedState<> g(w.space);
+                    double dv = std::numeric_limits<double>::infinity();
+                    for (auto &r : w.goals)
+                        if (!r.empty())
+                        {
+                            w.space->copyFromReals(g.get(), r);
+                            dv = std::min(dv, w.space->distance(last, g.get()));
+                        }
+                    if (std::isfinite(dv)) upper = std::max(upper, dv);
+                }
+                if (!(sol.difference_ <= upper + tol && sol.difference_ >= want - gr->getThreshold() - tol))
                     c.viol("approx-difference", c.detail("reported goal difference disagrees with the path's last state").num("reported", sol.difference_).num("actual", want));
             }
         }
